@@ -127,14 +127,21 @@ func HarnessC10() {
 type c10RulesFetcher struct{}
 
 func (c10RulesFetcher) FetchSourcePackage(ctx context.Context, sourceType string, u *url.URL, targetDir string) (FetchSourcePackageResponse, error) {
-	envWriteFile(targetDir+"/.terraformignore", 0644, 1000, "*.log\n")
 	envMkdir(targetDir+"/c", 0755, 1000)
+	if verif.Bool("rules.via-link") {
+		// the rule file is itself an in-package link to a regular file: its rules apply all the same
+		envWriteFile(targetDir+"/c/rules", 0644, 1000, "*.log\n")
+		envSymlink(targetDir+"/.terraformignore", "c/rules", 1000)
+	} else {
+		envWriteFile(targetDir+"/.terraformignore", 0644, 1000, "*.log\n")
+	}
 	envWriteFile(targetDir+"/c/a.log", 0644, 1000, "A")
 	envWriteFile(targetDir+"/c/k", 0644, 1000, "K")
 	envWriteFile(targetDir+"/c/m.log", 0644, 1000, "M")
 	t := c10SymPath("target", verif.Param("sLink", 3))
-	envSymlink(targetDir+"/c/z", t, 1000)
-	real := envRealPath(targetDir + "/c/z")
+	lname := []string{"/c/z", "/c/0"}[verif.Choose("link.name", 2)] // walked after / before the excluded entries
+	envSymlink(targetDir+lname, t, 1000)
+	real := envRealPath(targetDir + lname)
 	c10Bad = real == "" || !(real == targetDir || wHasPrefix(real, targetDir+"/"))
 	if !c10Bad {
 		if k := envLstatKind(real); k != envFile && k != envDir {
